@@ -6,14 +6,79 @@
 
 
 @spec_abstract
-def MBLAP(target: int, k: int, SG: A[int, 2], ploidy: A[int, 1], parents: A[int, 2], children: A[int, 2], tau: A[int, 2], lam: A[float, 2], err: A[float, 2], lf: A[xfloat, 1]) -> xfloat:
-    """log probability of allele copy k of individual `target` given its Markov blanket (abstract)"""
+def TRIO(g: A[int, 1], gp: A[int, 1], gq: A[int, 1], ploidy_p: int, ploidy_q: int, tau_p: int, tau_q: int, lam_p: float, lam_q: float, err_p: float, err_q: float, lf: A[xfloat, 1]) -> xfloat:
+    """log probability of a progeny genotype given its two parents (abstract: the result of prior.trio_log_pmf,
+    an ASSUMED contract; C17 checks that function at run time against a brute-force gamete model)"""
+
+
+@spec_abstract
+def TRIOA(k: int, g: A[int, 1], gp: A[int, 1], gq: A[int, 1], ploidy_p: int, ploidy_q: int, tau_p: int, tau_q: int, lam_p: float, lam_q: float, err_p: float, err_q: float, lf: A[xfloat, 1]) -> xfloat:
+    """log probability of allele copy k of the progeny given the rest of the trio (abstract: prior.trio_allele_log_pmf)"""
+
+
+@spec_inline
+def PROW(p: int, NS: int) -> int:
+    """row read by `sample_genotypes[p]`: an unknown parent (-1) wraps around to the last row (ignored by the pmf: ploidy 0, error 1)"""
+    return ite(p >= 0, p, NS + p)
+
+
+@spec_inline
+def PEDSTRUCT(parents: A[int, 2], lam: A[float, 2], err: A[float, 2], NS: int) -> bool:
+    """parent indices name individuals (-1: unknown); per-edge rates are numbers"""
+    return forall(0, NS, lambda x: -1 <= parents[x, 0] and parents[x, 0] < NS and -1 <= parents[x, 1] and parents[x, 1] < NS and finite(lam[x, 0]) and finite(lam[x, 1]) and finite(err[x, 0]) and finite(err[x, 1]))
 
 
 @spec
-def MBLAPU(target: int, k: int, a: int, SG: A[int, 2], ploidy: A[int, 1], parents: A[int, 2], children: A[int, 2], tau: A[int, 2], lam: A[float, 2], err: A[float, 2], lf: A[xfloat, 1]) -> xfloat:
+def TRIOI(i: int, SG: A[int, 2], ploidy: A[int, 1], parents: A[int, 2], tau: A[int, 2], lam: A[float, 2], err: A[float, 2], lf: A[xfloat, 1], NS: int) -> xfloat:
+    """the trio in which individual i is the child"""
+    return TRIO(SG[i], SG[PROW(parents[i, 0], NS)], SG[PROW(parents[i, 1], NS)], ite(parents[i, 0] >= 0, ploidy[parents[i, 0]], 0), ite(parents[i, 1] >= 0, ploidy[parents[i, 1]], 0), tau[i, 0], tau[i, 1], lam[i, 0], lam[i, 1], ite(parents[i, 0] >= 0, err[i, 0], 1.0), ite(parents[i, 1] >= 0, err[i, 1], 1.0), lf)
+
+
+@spec
+def TRIOAI(i: int, k: int, SG: A[int, 2], ploidy: A[int, 1], parents: A[int, 2], tau: A[int, 2], lam: A[float, 2], err: A[float, 2], lf: A[xfloat, 1], NS: int) -> xfloat:
+    return TRIOA(k, SG[i], SG[PROW(parents[i, 0], NS)], SG[PROW(parents[i, 1], NS)], ite(parents[i, 0] >= 0, ploidy[parents[i, 0]], 0), ite(parents[i, 1] >= 0, ploidy[parents[i, 1]], 0), tau[i, 0], tau[i, 1], lam[i, 0], lam[i, 1], ite(parents[i, 0] >= 0, err[i, 0], 1.0), ite(parents[i, 1] >= 0, err[i, 1], 1.0), lf)
+
+
+@spec
+def NCH(children: A[int, 2], t: int, j: int, MC: int) -> int:
+    """number of children of t: row t of the children matrix is padded with negative values"""
+    decreases(MC - j)
+    if j >= MC or children[t, j] < 0:
+        return j
+    return NCH(children, t, j + 1, MC)
+
+
+@spec
+def CHSUM(t: int, c: int, SG: A[int, 2], ploidy: A[int, 1], parents: A[int, 2], children: A[int, 2], tau: A[int, 2], lam: A[float, 2], err: A[float, 2], lf: A[xfloat, 1], NS: int) -> xfloat:
+    """sum of the trio log probabilities of the first c children of t"""
+    decreases(c)
+    if c <= 0:
+        return 0.0
+    return CHSUM(t, c - 1, SG, ploidy, parents, children, tau, lam, err, lf, NS) + TRIOI(children[t, c - 1], SG, ploidy, parents, tau, lam, err, lf, NS)
+
+
+@lemma(shared=True)
+def lemma_nch(children: A[int, 2], t: int, j: int, c: int, MC: int):
+    """the loop's exit point is the number of children"""
+    requires(0 <= j, j <= c, c <= MC, forall(j, c, lambda x: children[t, x] >= 0), c == MC or children[t, c] < 0)
+    ensures(NCH(children, t, j, MC) == c)
+    decreases(c - j)
+    unfold(NCH(children, t, j, MC))
+    if j < c:
+        lemma_nch(children, t, j + 1, c, MC)
+
+
+@spec
+def MBLAP(target: int, k: int, SG: A[int, 2], ploidy: A[int, 1], parents: A[int, 2], children: A[int, 2], tau: A[int, 2], lam: A[float, 2], err: A[float, 2], lf: A[xfloat, 1], NS: int, MC: int) -> xfloat:
+    """log probability of allele copy k of individual `target` given its Markov blanket: the allele-level pmf of
+    the trio in which target is the child + the full pmf of the trio of each of its children"""
+    return TRIOAI(target, k, SG, ploidy, parents, tau, lam, err, lf, NS) + CHSUM(target, NCH(children, target, 0, MC), SG, ploidy, parents, children, tau, lam, err, lf, NS)
+
+
+@spec
+def MBLAPU(target: int, k: int, a: int, SG: A[int, 2], ploidy: A[int, 1], parents: A[int, 2], children: A[int, 2], tau: A[int, 2], lam: A[float, 2], err: A[float, 2], lf: A[xfloat, 1], NS: int, MC: int) -> xfloat:
     """... with that copy set to allele a"""
-    return MBLAP(target, k, arr2(lambda x, y: ite(x == target and y == k, a, SG[x, y])), ploidy, parents, children, tau, lam, err, lf)
+    return MBLAP(target, k, arr2(lambda x, y: ite(x == target and y == k, a, SG[x, y])), ploidy, parents, children, tau, lam, err, lf, NS, MC)
 
 
 @spec
@@ -44,17 +109,56 @@ def lemma_llkaz_pos(reads: A[float, 3], counts: A[int, 1], H: A[int, 2], g: A[in
         lemma_llkaz_pos(reads, counts, H, g, P, N, n - 1)
 
 
-@contract("mchap.pedigree.prior.markov_blanket_log_allele_probability", trusted=True, props=["C18"])
-def markov_blanket_log_allele_probability(target_index: int, allele_index: int, sample_genotypes: A[iN, 2], sample_ploidy: A[iN, 1], sample_parents: A[iN, 2], sample_children: A[iN, 2], gamete_tau: A[iN, 2], gamete_lambda: A[f8, 2], gamete_error: A[f8, 2], log_frequencies: A[f8, 1], dosage: A[iN, 1], dosage_p: A[iN, 1], dosage_q: A[iN, 1], gamete_p: A[iN, 1], gamete_q: A[iN, 1], constraint_p: A[iN, 1], constraint_q: A[iN, 1], dosage_log_frequencies: A[f8, 1]) -> float:
+@contract("mchap.pedigree.prior.trio_log_pmf", trusted=True, props=["C18"])
+def trio_log_pmf(progeny: A[iN, 1], parent_p: A[iN, 1], parent_q: A[iN, 1], ploidy_p: int, ploidy_q: int, tau_p: int, tau_q: int, lambda_p: float, lambda_q: float, error_p: float, error_q: float, log_frequencies: A[f8, 1], dosage: A[iN, 1], dosage_p: A[iN, 1], dosage_q: A[iN, 1], gamete_p: A[iN, 1], gamete_q: A[iN, 1], constraint_p: A[iN, 1], constraint_q: A[iN, 1], dosage_log_frequencies: A[f8, 1]) -> float:
+    # ASSUMED: ~250 lines of gamete enumeration with try/except control flow (C17 checks it at run time)
     modifies(dosage, dosage_p, dosage_q, gamete_p, gamete_q, constraint_p, constraint_q, dosage_log_frequencies)
     ensures(not isnan(result))
-    ensures(result == MBLAP(target_index, allele_index, sample_genotypes, sample_ploidy, sample_parents, sample_children, gamete_tau, gamete_lambda, gamete_error, log_frequencies))
+    ensures(result == TRIO(progeny, parent_p, parent_q, ploidy_p, ploidy_q, tau_p, tau_q, lambda_p, lambda_q, error_p, error_q, log_frequencies))
+
+
+@contract("mchap.pedigree.prior.trio_allele_log_pmf", trusted=True, props=["C18"])
+def trio_allele_log_pmf(allele_index: int, progeny: A[iN, 1], parent_p: A[iN, 1], parent_q: A[iN, 1], ploidy_p: int, ploidy_q: int, tau_p: int, tau_q: int, lambda_p: float, lambda_q: float, error_p: float, error_q: float, log_frequencies: A[f8, 1], dosage: A[iN, 1], dosage_p: A[iN, 1], dosage_q: A[iN, 1], gamete_p: A[iN, 1], gamete_q: A[iN, 1], constraint_p: A[iN, 1], constraint_q: A[iN, 1], dosage_log_frequencies: A[f8, 1]) -> float:
+    modifies(dosage, dosage_p, dosage_q, gamete_p, gamete_q, constraint_p, constraint_q, dosage_log_frequencies)
+    ensures(not isnan(result))
+    ensures(result == TRIOA(allele_index, progeny, parent_p, parent_q, ploidy_p, ploidy_q, tau_p, tau_q, lambda_p, lambda_q, error_p, error_q, log_frequencies))
+
+
+@contract("mchap.pedigree.prior.markov_blanket_log_allele_probability", machine_ints=True, neg_index=True, props=["C18"])
+def markov_blanket_log_allele_probability(target_index: int, allele_index: int, sample_genotypes: A[iN, 2], sample_ploidy: A[iN, 1], sample_parents: A[iN, 2], sample_children: A[iN, 2], gamete_tau: A[iN, 2], gamete_lambda: A[f8, 2], gamete_error: A[f8, 2], log_frequencies: A[f8, 1], dosage: A[iN, 1], dosage_p: A[iN, 1], dosage_q: A[iN, 1], gamete_p: A[iN, 1], gamete_q: A[iN, 1], constraint_p: A[iN, 1], constraint_q: A[iN, 1], dosage_log_frequencies: A[f8, 1]) -> float:
+    requires(NS >= 1, 0 <= target_index, target_index < NS, sample_genotypes.shape[0] == NS, len(sample_parents) == NS, sample_parents.shape[1] == 2, len(sample_children) == NS)
+    requires(gamete_tau.shape == (NS, 2), gamete_lambda.shape == (NS, 2), gamete_error.shape == (NS, 2))
+    requires(forall(0, MC, lambda x: sample_children[target_index, x] < NS))
+    requires(PEDSTRUCT(sample_parents, gamete_lambda, gamete_error, NS))
+    modifies(dosage, dosage_p, dosage_q, gamete_p, gamete_q, constraint_p, constraint_q, dosage_log_frequencies)
+    ensures(not isnan(result))
+    ensures(result == MBLAP(target_index, allele_index, sample_genotypes, sample_ploidy, sample_parents, sample_children, gamete_tau, gamete_lambda, gamete_error, log_frequencies, NS, MC))
+    with defs():
+        NS = len(sample_ploidy)
+        MC = sample_children.shape[1]
+    with loop(0):
+        invariant(0 <= idx, idx <= MC, max_children == MC, not isnan(log_joint), cnt == idx)
+        invariant(forall(0, idx, lambda x: sample_children[target_index, x] >= 0))
+        invariant(log_joint == TRIOAI(target_index, allele_index, sample_genotypes, sample_ploidy, sample_parents, gamete_tau, gamete_lambda, gamete_error, log_frequencies, NS) + CHSUM(target_index, idx, sample_genotypes, sample_ploidy, sample_parents, sample_children, gamete_tau, gamete_lambda, gamete_error, log_frequencies, NS))
+        with head():
+            cnt = idx
+        with tail():
+            cnt = idx + 1
+            unfold(CHSUM(target_index, idx + 1, sample_genotypes, sample_ploidy, sample_parents, sample_children, gamete_tau, gamete_lambda, gamete_error, log_frequencies, NS))
+            unfold(TRIOI(i, sample_genotypes, sample_ploidy, sample_parents, gamete_tau, gamete_lambda, gamete_error, log_frequencies, NS))
+    with after_call("trio_allele_log_pmf"):
+        cnt = 0
+        unfold(TRIOAI(target_index, allele_index, sample_genotypes, sample_ploidy, sample_parents, gamete_tau, gamete_lambda, gamete_error, log_frequencies, NS))
+        unfold(CHSUM(target_index, 0, sample_genotypes, sample_ploidy, sample_parents, sample_children, gamete_tau, gamete_lambda, gamete_error, log_frequencies, NS))
+    with before_stmt("return log_joint"):
+        lemma_nch(sample_children, target_index, 0, cnt, MC)
+        unfold(MBLAP(target_index, allele_index, sample_genotypes, sample_ploidy, sample_parents, sample_children, gamete_tau, gamete_lambda, gamete_error, log_frequencies, NS, MC))
 
 
 @spec_inline
-def GIBBSW(reads: A[float, 3], counts: A[int, 1], H: A[int, 2], SG: A[int, 2], t: int, k: int, a: int, P: int, N: int, n: int, ploidy: A[int, 1], parents: A[int, 2], children: A[int, 2], tau: A[int, 2], lam: A[float, 2], err: A[float, 2], lf: A[xfloat, 1]) -> xfloat:
+def GIBBSW(reads: A[float, 3], counts: A[int, 1], H: A[int, 2], SG: A[int, 2], t: int, k: int, a: int, P: int, N: int, n: int, ploidy: A[int, 1], parents: A[int, 2], children: A[int, 2], tau: A[int, 2], lam: A[float, 2], err: A[float, 2], lf: A[xfloat, 1], NS: int, MC: int) -> xfloat:
     """log weight of allele a for copy k of individual t: own-reads likelihood + Markov-blanket prior"""
-    return LLKAZU(reads, counts, H, SG, t, k, a, P, N, n) + MBLAPU(t, k, a, SG, ploidy, parents, children, tau, lam, err, lf)
+    return LLKAZU(reads, counts, H, SG, t, k, a, P, N, n) + MBLAPU(t, k, a, SG, ploidy, parents, children, tau, lam, err, lf, NS, MC)
 
 
 @spec_inline
@@ -66,6 +170,8 @@ def DCOH3(cache: FDict2, RD: A[float, 4], RC: A[int, 2], H: A[int, 2], PL: A[int
 
 @contract("mchap.pedigree.mcmc.gibbs_probabilities", machine_ints=True, props=["C18", "C09"])
 def gibbs_probabilities(target_index: int, allele_index: int, sample_genotypes: A[iN, 2], sample_ploidy: A[iN, 1], sample_parents: A[iN, 2], sample_children: A[iN, 2], gamete_tau: A[iN, 2], gamete_lambda: A[f8, 2], gamete_error: A[f8, 2], sample_read_dists: A[f8, 4], sample_read_counts: A[i8, 2], haplotypes: A[i1, 2], log_frequencies: A[f8, 1], llk_cache: Opt[FDict2], dosage: A[iN, 1], dosage_p: A[iN, 1], dosage_q: A[iN, 1], gamete_p: A[iN, 1], gamete_q: A[iN, 1], constraint_p: A[iN, 1], constraint_q: A[iN, 1], dosage_log_frequencies: A[f8, 1]) -> A[f8, 1]:
+    requires(len(sample_parents) == NS, sample_parents.shape[1] == 2, gamete_tau.shape == (NS, 2), gamete_lambda.shape == (NS, 2), gamete_error.shape == (NS, 2), PEDSTRUCT(sample_parents, gamete_lambda, gamete_error, NS))
+    requires(len(sample_children) == NS, forall(0, MC, lambda x: sample_children[target_index, x] < NS))
     requires(NS >= 1, 0 <= target_index, target_index < NS, sample_genotypes.shape[0] == NS, sample_read_dists.shape[0] == NS, sample_read_counts.shape[0] == NS, sample_read_counts.shape[1] == NR)
     requires(1 <= P, P <= sample_genotypes.shape[1], P <= 127, 0 <= allele_index, allele_index < P, 1 <= U, U <= 127, sample_read_dists.shape[2] == NN)
     requires(forall(0, P, lambda i: 0 <= sample_genotypes[target_index, i] and sample_genotypes[target_index, i] < U))
@@ -74,15 +180,16 @@ def gibbs_probabilities(target_index: int, allele_index: int, sample_genotypes: 
     requires(implies(llk_cache is not None, DCOH3(llk_cache, sample_read_dists, sample_read_counts, haplotypes, sample_ploidy, NS, NN, NR, U)))
     # the current state is possible
     requires(not isninf(LLKAZU(sample_read_dists[target_index], sample_read_counts[target_index], haplotypes, sample_genotypes, target_index, allele_index, sample_genotypes[target_index, allele_index], P, NN, NR)))
-    requires(not isninf(MBLAPU(target_index, allele_index, sample_genotypes[target_index, allele_index], sample_genotypes, sample_ploidy, sample_parents, sample_children, gamete_tau, gamete_lambda, gamete_error, log_frequencies)))
+    requires(not isninf(MBLAPU(target_index, allele_index, sample_genotypes[target_index, allele_index], sample_genotypes, sample_ploidy, sample_parents, sample_children, gamete_tau, gamete_lambda, gamete_error, log_frequencies, NS, MC)))
     modifies(sample_genotypes, llk_cache, dosage, dosage_p, dosage_q, gamete_p, gamete_q, constraint_p, constraint_q, dosage_log_frequencies)
     ensures(forall(0, NS, lambda x: forall(0, sample_genotypes.shape[1], lambda y: sample_genotypes[x, y] == old(sample_genotypes)[x, y])))
     # C18: the Gibbs vector is  exp(own-reads likelihood + Markov-blanket prior)  of each allele, normalised
     ensures(len(result) == U, FSUM(result, 0, U) == 1, forall(0, U, lambda a: finite(result[a]) and result[a] >= 0))
-    ensures(forall(0, U, lambda a: forall(0, U, lambda b: PROPTO(result[a], exp(GIBBSW(sample_read_dists[target_index], sample_read_counts[target_index], haplotypes, old(sample_genotypes), target_index, allele_index, a, P, NN, NR, sample_ploidy, sample_parents, sample_children, gamete_tau, gamete_lambda, gamete_error, log_frequencies)), result[b], exp(GIBBSW(sample_read_dists[target_index], sample_read_counts[target_index], haplotypes, old(sample_genotypes), target_index, allele_index, b, P, NN, NR, sample_ploidy, sample_parents, sample_children, gamete_tau, gamete_lambda, gamete_error, log_frequencies))))))
+    ensures(forall(0, U, lambda a: forall(0, U, lambda b: PROPTO(result[a], exp(GIBBSW(sample_read_dists[target_index], sample_read_counts[target_index], haplotypes, old(sample_genotypes), target_index, allele_index, a, P, NN, NR, sample_ploidy, sample_parents, sample_children, gamete_tau, gamete_lambda, gamete_error, log_frequencies, NS, MC)), result[b], exp(GIBBSW(sample_read_dists[target_index], sample_read_counts[target_index], haplotypes, old(sample_genotypes), target_index, allele_index, b, P, NN, NR, sample_ploidy, sample_parents, sample_children, gamete_tau, gamete_lambda, gamete_error, log_frequencies, NS, MC))))))
     ensures(implies(llk_cache is not None, DCOH3(llk_cache, sample_read_dists, sample_read_counts, haplotypes, sample_ploidy, NS, NN, NR, U)))
     with defs():
         NS = len(sample_ploidy)
+        MC = sample_children.shape[1]
         NR = sample_read_dists.shape[1]
         NN = haplotypes.shape[1]
         U = len(haplotypes)
@@ -108,7 +215,7 @@ def gibbs_probabilities(target_index: int, allele_index: int, sample_genotypes: 
         # only the cell (target, copy) is ever written
         invariant(val(sample_genotypes) == arr2(lambda x, y: ite(x == target_index and y == allele_index, sample_genotypes[target_index, allele_index], SG0[x, y])))
         invariant(0 <= sample_genotypes[target_index, allele_index], sample_genotypes[target_index, allele_index] < U)
-        invariant(forall(0, i, lambda b: not isnan(log_probabilities[b]) and log_probabilities[b] == GIBBSW(RDT, RCT, haplotypes, SG0, target_index, allele_index, b, P, NN, NR, sample_ploidy, sample_parents, sample_children, gamete_tau, gamete_lambda, gamete_error, log_frequencies)))
+        invariant(forall(0, i, lambda b: not isnan(log_probabilities[b]) and log_probabilities[b] == GIBBSW(RDT, RCT, haplotypes, SG0, target_index, allele_index, b, P, NN, NR, sample_ploidy, sample_parents, sample_children, gamete_tau, gamete_lambda, gamete_error, log_frequencies, NS, MC)))
         invariant(implies(llk_cache is not None, DCOH2(llk_cache, target_index, reads, read_counts, haplotypes, P, NN, len(reads), U)))
         invariant(implies(llk_cache is not None, forall(lambda s2, k2: implies(s2 != target_index, ((s2, k2) in llk_cache) == ((s2, k2) in old(llk_cache)) and same(llk_cache[s2, k2], old(llk_cache)[s2, k2])))))
     with before_call("log_likelihood_alleles_cached", 0):
@@ -122,14 +229,14 @@ def gibbs_probabilities(target_index: int, allele_index: int, sample_genotypes: 
         lemma_llka_compact(RDT, RCT, reads, read_counts, MASK, haplotypes, GU, P, NN, NR)
         unfold(LLKAZU(RDT, RCT, haplotypes, SG0, target_index, allele_index, i, P, NN, NR))
     with after_call("markov_blanket_log_allele_probability", 0):
-        unfold(MBLAPU(target_index, allele_index, i, SG0, sample_ploidy, sample_parents, sample_children, gamete_tau, gamete_lambda, gamete_error, log_frequencies))
+        unfold(MBLAPU(target_index, allele_index, i, SG0, sample_ploidy, sample_parents, sample_children, gamete_tau, gamete_lambda, gamete_error, log_frequencies, NS, MC))
     with before_call("normalise_log_probs", 0):
         lemma_esum_pos(log_probabilities, 0, U, current_allele)
     with exit_():
         R = normalise_log_probs_result
-        with forall_intro(a2, 0, U, forall(0, U, lambda b: PROPTO(R[a2], exp(GIBBSW(RDT, RCT, haplotypes, SG0, target_index, allele_index, a2, P, NN, NR, sample_ploidy, sample_parents, sample_children, gamete_tau, gamete_lambda, gamete_error, log_frequencies)), R[b], exp(GIBBSW(RDT, RCT, haplotypes, SG0, target_index, allele_index, b, P, NN, NR, sample_ploidy, sample_parents, sample_children, gamete_tau, gamete_lambda, gamete_error, log_frequencies))))):
-            with forall_intro(b2, 0, U, PROPTO(R[a2], exp(GIBBSW(RDT, RCT, haplotypes, SG0, target_index, allele_index, a2, P, NN, NR, sample_ploidy, sample_parents, sample_children, gamete_tau, gamete_lambda, gamete_error, log_frequencies)), R[b2], exp(GIBBSW(RDT, RCT, haplotypes, SG0, target_index, allele_index, b2, P, NN, NR, sample_ploidy, sample_parents, sample_children, gamete_tau, gamete_lambda, gamete_error, log_frequencies)))):
-                unfold(PROPTO(R[a2], exp(GIBBSW(RDT, RCT, haplotypes, SG0, target_index, allele_index, a2, P, NN, NR, sample_ploidy, sample_parents, sample_children, gamete_tau, gamete_lambda, gamete_error, log_frequencies)), R[b2], exp(GIBBSW(RDT, RCT, haplotypes, SG0, target_index, allele_index, b2, P, NN, NR, sample_ploidy, sample_parents, sample_children, gamete_tau, gamete_lambda, gamete_error, log_frequencies))))
+        with forall_intro(a2, 0, U, forall(0, U, lambda b: PROPTO(R[a2], exp(GIBBSW(RDT, RCT, haplotypes, SG0, target_index, allele_index, a2, P, NN, NR, sample_ploidy, sample_parents, sample_children, gamete_tau, gamete_lambda, gamete_error, log_frequencies, NS, MC)), R[b], exp(GIBBSW(RDT, RCT, haplotypes, SG0, target_index, allele_index, b, P, NN, NR, sample_ploidy, sample_parents, sample_children, gamete_tau, gamete_lambda, gamete_error, log_frequencies, NS, MC))))):
+            with forall_intro(b2, 0, U, PROPTO(R[a2], exp(GIBBSW(RDT, RCT, haplotypes, SG0, target_index, allele_index, a2, P, NN, NR, sample_ploidy, sample_parents, sample_children, gamete_tau, gamete_lambda, gamete_error, log_frequencies, NS, MC)), R[b2], exp(GIBBSW(RDT, RCT, haplotypes, SG0, target_index, allele_index, b2, P, NN, NR, sample_ploidy, sample_parents, sample_children, gamete_tau, gamete_lambda, gamete_error, log_frequencies, NS, MC)))):
+                unfold(PROPTO(R[a2], exp(GIBBSW(RDT, RCT, haplotypes, SG0, target_index, allele_index, a2, P, NN, NR, sample_ploidy, sample_parents, sample_children, gamete_tau, gamete_lambda, gamete_error, log_frequencies, NS, MC)), R[b2], exp(GIBBSW(RDT, RCT, haplotypes, SG0, target_index, allele_index, b2, P, NN, NR, sample_ploidy, sample_parents, sample_children, gamete_tau, gamete_lambda, gamete_error, log_frequencies, NS, MC))))
                 lemma_shares_proportional(R[a2], R[b2], ESUM(log_probabilities, 0, U), exp(log_probabilities[a2]), exp(log_probabilities[b2]))
         if llk_cache is not None:
             # back to the global statement: this individual's entries via the masked arrays, the others by the frame
@@ -187,16 +294,66 @@ def lemma_dcoh2_to_3(cache: FDict2, cache0: FDict2, RD: A[float, 4], RC: A[int, 
                 instantiate(DCOH3(cache0, RD, RC, H, PL, NS, N, n, U), g3)
 
 
-@spec_abstract
-def GMB(blanket: A[int, 1], SG: A[int, 2], ploidy: A[int, 1], parents: A[int, 2], tau: A[int, 2], lam: A[float, 2], err: A[float, 2], lf: A[xfloat, 1]) -> xfloat:
-    """joint log probability of the pedigree items in a Markov blanket (abstract: pedigree/prior.py is not under contract)"""
+@spec
+def NBL(blanket: A[int, 1], j: int, L: int) -> int:
+    """number of entries of a blanket vector padded with negative values"""
+    decreases(L - j)
+    if j >= L or blanket[j] < 0:
+        return j
+    return NBL(blanket, j + 1, L)
 
 
-@contract("mchap.pedigree.prior.generic_markov_blanket_log_probability", trusted=True, props=["C18"])
+@lemma(shared=True)
+def lemma_nbl(blanket: A[int, 1], j: int, c: int, L: int):
+    requires(0 <= j, j <= c, c <= L, forall(j, c, lambda x: blanket[x] >= 0), c == L or blanket[c] < 0)
+    ensures(NBL(blanket, j, L) == c)
+    decreases(c - j)
+    unfold(NBL(blanket, j, L))
+    if j < c:
+        lemma_nbl(blanket, j + 1, c, L)
+
+
+@spec
+def GSUM(blanket: A[int, 1], c: int, SG: A[int, 2], ploidy: A[int, 1], parents: A[int, 2], tau: A[int, 2], lam: A[float, 2], err: A[float, 2], lf: A[xfloat, 1], NS: int) -> xfloat:
+    decreases(c)
+    if c <= 0:
+        return 0.0
+    return GSUM(blanket, c - 1, SG, ploidy, parents, tau, lam, err, lf, NS) + TRIOI(blanket[c - 1], SG, ploidy, parents, tau, lam, err, lf, NS)
+
+
+@spec
+def GMB(blanket: A[int, 1], SG: A[int, 2], ploidy: A[int, 1], parents: A[int, 2], tau: A[int, 2], lam: A[float, 2], err: A[float, 2], lf: A[xfloat, 1], NS: int, L: int) -> xfloat:
+    """joint log probability of the pedigree items in a Markov blanket: the sum of the trio log probabilities of its members"""
+    return GSUM(blanket, NBL(blanket, 0, L), SG, ploidy, parents, tau, lam, err, lf, NS)
+
+
+@contract("mchap.pedigree.prior.generic_markov_blanket_log_probability", machine_ints=True, neg_index=True, props=["C18"])
 def generic_markov_blanket_log_probability(markov_blanket: A[iN, 1], sample_genotypes: A[iN, 2], sample_ploidy: A[iN, 1], sample_parents: A[iN, 2], gamete_tau: A[iN, 2], gamete_lambda: A[f8, 2], gamete_error: A[f8, 2], log_frequencies: A[f8, 1], dosage: A[iN, 1], dosage_p: A[iN, 1], dosage_q: A[iN, 1], gamete_p: A[iN, 1], gamete_q: A[iN, 1], constraint_p: A[iN, 1], constraint_q: A[iN, 1], dosage_log_frequencies: A[f8, 1]) -> float:
+    requires(NS >= 1, sample_genotypes.shape[0] == NS, len(sample_parents) == NS, sample_parents.shape[1] == 2)
+    requires(gamete_tau.shape == (NS, 2), gamete_lambda.shape == (NS, 2), gamete_error.shape == (NS, 2))
+    requires(forall(0, len(markov_blanket), lambda x: markov_blanket[x] < NS))
+    requires(PEDSTRUCT(sample_parents, gamete_lambda, gamete_error, NS))
     modifies(dosage, dosage_p, dosage_q, gamete_p, gamete_q, constraint_p, constraint_q, dosage_log_frequencies)
     ensures(not isnan(result))
-    ensures(result == GMB(markov_blanket, sample_genotypes, sample_ploidy, sample_parents, gamete_tau, gamete_lambda, gamete_error, log_frequencies))
+    ensures(result == GMB(markov_blanket, sample_genotypes, sample_ploidy, sample_parents, gamete_tau, gamete_lambda, gamete_error, log_frequencies, NS, len(markov_blanket)))
+    with defs():
+        NS = len(sample_ploidy)
+    with before_stmt("log_joint = 0.0"):
+        cnt = 0
+        unfold(GSUM(markov_blanket, 0, sample_genotypes, sample_ploidy, sample_parents, gamete_tau, gamete_lambda, gamete_error, log_frequencies, NS))
+    with loop(0):
+        invariant(0 <= idx, idx <= max_size, max_size == len(markov_blanket), not isnan(log_joint), cnt == idx)
+        invariant(forall(0, idx, lambda x: markov_blanket[x] >= 0))
+        invariant(log_joint == GSUM(markov_blanket, idx, sample_genotypes, sample_ploidy, sample_parents, gamete_tau, gamete_lambda, gamete_error, log_frequencies, NS))
+        with head():
+            cnt = idx
+        with tail():
+            cnt = idx + 1
+            unfold(GSUM(markov_blanket, idx + 1, sample_genotypes, sample_ploidy, sample_parents, gamete_tau, gamete_lambda, gamete_error, log_frequencies, NS))
+            unfold(TRIOI(i, sample_genotypes, sample_ploidy, sample_parents, gamete_tau, gamete_lambda, gamete_error, log_frequencies, NS))
+    with before_stmt("return log_joint"):
+        lemma_nbl(markov_blanket, 0, cnt, len(markov_blanket))
+        unfold(GMB(markov_blanket, sample_genotypes, sample_ploidy, sample_parents, gamete_tau, gamete_lambda, gamete_error, log_frequencies, NS, len(markov_blanket)))
 
 
 @spec_inline
@@ -207,6 +364,8 @@ def SAMPLEOK(SG: A[int, 2], RD: A[xfloat, 4], RC: A[int, 2], H: A[int, 2], s: in
 
 @contract("mchap.pedigree.mcmc.pair_allele_swap_step", machine_ints=True, props=["C18", "C09"], variants=[{"llk_cache": "some"}])
 def pair_allele_swap_step(p: int, q: int, markov_blanket: A[iN, 1], sample_genotypes: A[iN, 2], sample_ploidy: A[iN, 1], sample_parents: A[iN, 2], gamete_tau: A[iN, 2], gamete_lambda: A[f8, 2], gamete_error: A[f8, 2], sample_read_dists: A[f8, 4], sample_read_counts: A[i8, 2], haplotypes: A[i1, 2], log_frequencies: A[f8, 1], llk_cache: Opt[FDict2], dosage: A[iN, 1], dosage_p: A[iN, 1], dosage_q: A[iN, 1], gamete_p: A[iN, 1], gamete_q: A[iN, 1], constraint_p: A[iN, 1], constraint_q: A[iN, 1], dosage_log_frequencies: A[f8, 1]) -> Tup[float, bool]:
+    requires(len(sample_parents) == NS, sample_parents.shape[1] == 2, gamete_tau.shape == (NS, 2), gamete_lambda.shape == (NS, 2), gamete_error.shape == (NS, 2), PEDSTRUCT(sample_parents, gamete_lambda, gamete_error, NS))
+    requires(forall(0, len(markov_blanket), lambda x: markov_blanket[x] < NS))
     requires(NS >= 1, 0 <= p, p < NS, 0 <= q, q < NS, p != q, sample_genotypes.shape[0] == NS, sample_read_dists.shape[0] == NS, sample_read_counts.shape[0] == NS, sample_read_counts.shape[1] == NR, sample_read_dists.shape[2] == NN)
     requires(1 <= U, U <= 127, sample_ploidy[p] <= sample_genotypes.shape[1], sample_ploidy[q] <= sample_genotypes.shape[1])
     requires(forall(0, haplotypes.shape[0], lambda h: forall(0, NN, lambda j: 0 <= haplotypes[h, j] and haplotypes[h, j] < sample_read_dists.shape[3])))
@@ -217,7 +376,7 @@ def pair_allele_swap_step(p: int, q: int, markov_blanket: A[iN, 1], sample_genot
     # the current state is possible
     requires(not isninf(LLKAZ(sample_read_dists[p], sample_read_counts[p], haplotypes, arr1(lambda t: sample_genotypes[p, t]), sample_ploidy[p], NN, NR)))
     requires(not isninf(LLKAZ(sample_read_dists[q], sample_read_counts[q], haplotypes, arr1(lambda t: sample_genotypes[q, t]), sample_ploidy[q], NN, NR)))
-    requires(not isninf(GMB(markov_blanket, sample_genotypes, sample_ploidy, sample_parents, gamete_tau, gamete_lambda, gamete_error, log_frequencies)))
+    requires(not isninf(GMB(markov_blanket, sample_genotypes, sample_ploidy, sample_parents, gamete_tau, gamete_lambda, gamete_error, log_frequencies, NS, len(markov_blanket))))
     modifies(sample_genotypes, llk_cache, dosage, dosage_p, dosage_q, gamete_p, gamete_q, constraint_p, constraint_q, dosage_log_frequencies)
     # C09: every likelihood entered into the shared cache belongs to the individual whose reads produced it
     ensures(implies(llk_cache is not None, DCOH3(llk_cache, sample_read_dists, sample_read_counts, haplotypes, sample_ploidy, NS, NN, NR, U)))
@@ -277,38 +436,65 @@ def pair_allele_swap_step(p: int, q: int, markov_blanket: A[iN, 1], sample_genot
         lemma_cnt_pos(sample_genotypes[q], sample_genotypes.shape[1], index_q)
 
 
-@spec_abstract
-def MBLP(target: int, SG: A[int, 2], ploidy: A[int, 1], parents: A[int, 2], children: A[int, 2], tau: A[int, 2], lam: A[float, 2], err: A[float, 2], lf: A[xfloat, 1]) -> xfloat:
-    """joint log probability of the Markov blanket of individual `target` (abstract)"""
+@spec
+def MBLP(target: int, SG: A[int, 2], ploidy: A[int, 1], parents: A[int, 2], children: A[int, 2], tau: A[int, 2], lam: A[float, 2], err: A[float, 2], lf: A[xfloat, 1], NS: int, MC: int) -> xfloat:
+    """joint log probability of the Markov blanket of individual `target`: the trio in which it is the child + the
+    trio of each of its children"""
+    return TRIOI(target, SG, ploidy, parents, tau, lam, err, lf, NS) + CHSUM(target, NCH(children, target, 0, MC), SG, ploidy, parents, children, tau, lam, err, lf, NS)
 
 
 @spec
-def MBLPU(target: int, k: int, a: int, SG: A[int, 2], ploidy: A[int, 1], parents: A[int, 2], children: A[int, 2], tau: A[int, 2], lam: A[float, 2], err: A[float, 2], lf: A[xfloat, 1]) -> xfloat:
-    return MBLP(target, arr2(lambda x, y: ite(x == target and y == k, a, SG[x, y])), ploidy, parents, children, tau, lam, err, lf)
+def MBLPU(target: int, k: int, a: int, SG: A[int, 2], ploidy: A[int, 1], parents: A[int, 2], children: A[int, 2], tau: A[int, 2], lam: A[float, 2], err: A[float, 2], lf: A[xfloat, 1], NS: int, MC: int) -> xfloat:
+    return MBLP(target, arr2(lambda x, y: ite(x == target and y == k, a, SG[x, y])), ploidy, parents, children, tau, lam, err, lf, NS, MC)
 
 
-@contract("mchap.pedigree.prior.markov_blanket_log_probability", trusted=True, props=["C18"])
+@contract("mchap.pedigree.prior.markov_blanket_log_probability", machine_ints=True, neg_index=True, props=["C18"])
 def markov_blanket_log_probability(target_index: int, sample_genotypes: A[iN, 2], sample_ploidy: A[iN, 1], sample_parents: A[iN, 2], sample_children: A[iN, 2], gamete_tau: A[iN, 2], gamete_lambda: A[f8, 2], gamete_error: A[f8, 2], log_frequencies: A[f8, 1], dosage: A[iN, 1], dosage_p: A[iN, 1], dosage_q: A[iN, 1], gamete_p: A[iN, 1], gamete_q: A[iN, 1], constraint_p: A[iN, 1], constraint_q: A[iN, 1], dosage_log_frequencies: A[f8, 1]) -> float:
+    requires(NS >= 1, sample_genotypes.shape[0] == NS, len(sample_parents) == NS, sample_parents.shape[1] == 2, len(sample_children) == NS)
+    requires(gamete_tau.shape == (NS, 2), gamete_lambda.shape == (NS, 2), gamete_error.shape == (NS, 2))
+    requires(0 <= target_index, target_index < NS, forall(0, MC, lambda x: sample_children[target_index, x] < NS))
+    requires(PEDSTRUCT(sample_parents, gamete_lambda, gamete_error, NS))
     modifies(dosage, dosage_p, dosage_q, gamete_p, gamete_q, constraint_p, constraint_q, dosage_log_frequencies)
     ensures(not isnan(result))
-    ensures(result == MBLP(target_index, sample_genotypes, sample_ploidy, sample_parents, sample_children, gamete_tau, gamete_lambda, gamete_error, log_frequencies))
+    ensures(result == MBLP(target_index, sample_genotypes, sample_ploidy, sample_parents, sample_children, gamete_tau, gamete_lambda, gamete_error, log_frequencies, NS, MC))
+    with defs():
+        NS = len(sample_ploidy)
+        MC = sample_children.shape[1]
+    with before_stmt("log_joint = 0.0"):
+        cnt = -1
+    with loop(0):
+        invariant(-1 <= idx, idx <= MC, max_children == MC, n_samples == NS, not isnan(log_joint), cnt == idx)
+        invariant(forall(0, idx, lambda x: sample_children[target_index, x] >= 0))
+        invariant(log_joint == ite(idx == -1, 0.0, TRIOI(target_index, sample_genotypes, sample_ploidy, sample_parents, gamete_tau, gamete_lambda, gamete_error, log_frequencies, NS) + CHSUM(target_index, idx, sample_genotypes, sample_ploidy, sample_parents, sample_children, gamete_tau, gamete_lambda, gamete_error, log_frequencies, NS)))
+        with head():
+            cnt = idx
+        with tail():
+            cnt = idx + 1
+            unfold(CHSUM(target_index, idx + 1, sample_genotypes, sample_ploidy, sample_parents, sample_children, gamete_tau, gamete_lambda, gamete_error, log_frequencies, NS))
+            unfold(TRIOI(i, sample_genotypes, sample_ploidy, sample_parents, gamete_tau, gamete_lambda, gamete_error, log_frequencies, NS))
+    with before_stmt("return log_joint"):
+        lemma_nch(sample_children, target_index, 0, cnt, MC)
+        unfold(MBLP(target_index, sample_genotypes, sample_ploidy, sample_parents, sample_children, gamete_tau, gamete_lambda, gamete_error, log_frequencies, NS, MC))
 
 
 @contract("mchap.pedigree.mcmc.metropolis_hastings_probabilities", machine_ints=True, props=["C18", "C09"], variants=[{"llk_cache": "some"}])
 def metropolis_hastings_probabilities(target_index: int, allele_index: int, sample_genotypes: A[iN, 2], sample_ploidy: A[iN, 1], sample_parents: A[iN, 2], sample_children: A[iN, 2], gamete_tau: A[iN, 2], gamete_lambda: A[f8, 2], gamete_error: A[f8, 2], sample_read_dists: A[f8, 4], sample_read_counts: A[i8, 2], haplotypes: A[i1, 2], log_frequencies: A[f8, 1], llk_cache: Opt[FDict2], dosage: A[iN, 1], dosage_p: A[iN, 1], dosage_q: A[iN, 1], gamete_p: A[iN, 1], gamete_q: A[iN, 1], constraint_p: A[iN, 1], constraint_q: A[iN, 1], dosage_log_frequencies: A[f8, 1]) -> A[f8, 1]:
+    requires(len(sample_parents) == NS, sample_parents.shape[1] == 2, gamete_tau.shape == (NS, 2), gamete_lambda.shape == (NS, 2), gamete_error.shape == (NS, 2), PEDSTRUCT(sample_parents, gamete_lambda, gamete_error, NS))
+    requires(len(sample_children) == NS, forall(0, MC, lambda x: sample_children[target_index, x] < NS))
     requires(NS >= 1, 0 <= target_index, target_index < NS, sample_genotypes.shape[0] == NS, sample_read_dists.shape[0] == NS, sample_read_counts.shape[0] == NS, sample_read_counts.shape[1] == NR)
     requires(P <= sample_genotypes.shape[1], sample_genotypes.shape[1] <= 2 ** 20, 0 <= allele_index, allele_index < P, 2 <= U, U <= 127, sample_read_dists.shape[2] == NN)
     requires(forall(0, U, lambda h: forall(0, NN, lambda j: 0 <= haplotypes[h, j] and haplotypes[h, j] < sample_read_dists.shape[3])))
     requires(SAMPLEOK(sample_genotypes, sample_read_dists, sample_read_counts, haplotypes, target_index, P, U, NN, sample_read_dists.shape[3], NR))
     requires(implies(llk_cache is not None, DCOH3(llk_cache, sample_read_dists, sample_read_counts, haplotypes, sample_ploidy, NS, NN, NR, U)))
     # proved domain: every option has a finite likelihood and blanket probability (error-rate encoded reads, positive gamete error)
-    requires(forall(0, U, lambda a: not isninf(LLKAZU(sample_read_dists[target_index], sample_read_counts[target_index], haplotypes, sample_genotypes, target_index, allele_index, a, P, NN, NR)) and not isninf(MBLPU(target_index, allele_index, a, sample_genotypes, sample_ploidy, sample_parents, sample_children, gamete_tau, gamete_lambda, gamete_error, log_frequencies))))
+    requires(forall(0, U, lambda a: not isninf(LLKAZU(sample_read_dists[target_index], sample_read_counts[target_index], haplotypes, sample_genotypes, target_index, allele_index, a, P, NN, NR)) and not isninf(MBLPU(target_index, allele_index, a, sample_genotypes, sample_ploidy, sample_parents, sample_children, gamete_tau, gamete_lambda, gamete_error, log_frequencies, NS, MC))))
     modifies(sample_genotypes, llk_cache, dosage, dosage_p, dosage_q, gamete_p, gamete_q, constraint_p, constraint_q, dosage_log_frequencies)
     ensures(forall(0, NS, lambda x: forall(0, sample_genotypes.shape[1], lambda y: sample_genotypes[x, y] == old(sample_genotypes)[x, y])))
     ensures(len(result) == U, FSUM(result, 0, U) == 1, forall(0, U, lambda a: finite(result[a]) and result[a] >= 0))
     ensures(implies(llk_cache is not None, DCOH3(llk_cache, sample_read_dists, sample_read_counts, haplotypes, sample_ploidy, NS, NN, NR, U)))
     with defs():
         NS = len(sample_ploidy)
+        MC = sample_children.shape[1]
         NR = sample_read_dists.shape[1]
         NN = haplotypes.shape[1]
         U = len(haplotypes)
@@ -334,7 +520,7 @@ def metropolis_hastings_probabilities(target_index: int, allele_index: int, samp
         lemma_masked_llk(RDT, RCT, reads, read_counts, MASK, haplotypes, GC, P, NN, NR, len(read_counts))
         unfold(LLKAZU(RDT, RCT, haplotypes, SG0, target_index, allele_index, current_allele, P, NN, NR))
     with after_call("markov_blanket_log_probability", 0):
-        unfold(MBLPU(target_index, allele_index, current_allele, SG0, sample_ploidy, sample_parents, sample_children, gamete_tau, gamete_lambda, gamete_error, log_frequencies))
+        unfold(MBLPU(target_index, allele_index, current_allele, SG0, sample_ploidy, sample_parents, sample_children, gamete_tau, gamete_lambda, gamete_error, log_frequencies, NS, MC))
     with loop(0):
         invariant(0 <= i, i <= n_alleles, n_alleles == U, ploidy == P, current_allele == SG0[target_index, allele_index], len(log_accept) == U, allele_copies >= 1, finite(llk), finite(lprior))
         invariant(val(sample_genotypes) == arr2(lambda x, y: ite(x == target_index and y == allele_index, sample_genotypes[target_index, allele_index], SG0[x, y])))
@@ -352,7 +538,7 @@ def metropolis_hastings_probabilities(target_index: int, allele_index: int, samp
         lemma_masked_llk(RDT, RCT, reads, read_counts, MASK, haplotypes, GU, P, NN, NR, len(read_counts))
         unfold(LLKAZU(RDT, RCT, haplotypes, SG0, target_index, allele_index, i, P, NN, NR))
     with after_call("markov_blanket_log_probability", 1):
-        unfold(MBLPU(target_index, allele_index, i, SG0, sample_ploidy, sample_parents, sample_children, gamete_tau, gamete_lambda, gamete_error, log_frequencies))
+        unfold(MBLPU(target_index, allele_index, i, SG0, sample_ploidy, sample_parents, sample_children, gamete_tau, gamete_lambda, gamete_error, log_frequencies, NS, MC))
     with before_stmt("allele_copies_i = count_allele(sample_genotypes[target_index], i)"):
         lemma_cnt_pos(sample_genotypes[target_index], sample_genotypes.shape[1], allele_index)
     with before_stmt("probabilities[current_allele] = 1 - probabilities.sum()"):
@@ -378,18 +564,20 @@ def PEDOK(SG: A[int, 2], PL: A[int, 1], RD: A[xfloat, 4], RC: A[int, 2], H: A[in
 
 
 @spec_inline
-def PEDPOS(PL: A[int, 1], parents: A[int, 2], children: A[int, 2], tau: A[int, 2], lam: A[float, 2], err: A[float, 2], lf: A[xfloat, 1], RD: A[float, 4], RC: A[int, 2], H: A[int, 2], NS: int, U: int, N: int, NR: int) -> bool:
+def PEDPOS(PL: A[int, 1], parents: A[int, 2], children: A[int, 2], tau: A[int, 2], lam: A[float, 2], err: A[float, 2], lf: A[xfloat, 1], RD: A[float, 4], RC: A[int, 2], H: A[int, 2], NS: int, U: int, N: int, NR: int, MC: int) -> bool:
     """domain of the proof: every single-allele option of every joint state has a finite likelihood and finite
     Markov-blanket probabilities (error-rate encoded reads, positive gamete error and allele frequencies)"""
-    return forall_arr2(lambda G: forall(0, NS, lambda t: forall(0, PL[t], lambda k: forall(0, U, lambda a: not isninf(LLKAZU(RD[t], RC[t], H, G, t, k, a, PL[t], N, NR)) and not isninf(MBLAPU(t, k, a, G, PL, parents, children, tau, lam, err, lf)) and not isninf(MBLPU(t, k, a, G, PL, parents, children, tau, lam, err, lf))))))
+    return forall_arr2(lambda G: forall(0, NS, lambda t: forall(0, PL[t], lambda k: forall(0, U, lambda a: not isninf(LLKAZU(RD[t], RC[t], H, G, t, k, a, PL[t], N, NR)) and not isninf(MBLAPU(t, k, a, G, PL, parents, children, tau, lam, err, lf, NS, MC)) and not isninf(MBLPU(t, k, a, G, PL, parents, children, tau, lam, err, lf, NS, MC))))))
 
 
 @contract("mchap.pedigree.mcmc.allele_step", machine_ints=True, props=["C18", "C09"], variants=[{"llk_cache": "some"}])
 def allele_step(target_index: int, allele_index: int, sample_genotypes: A[iN, 2], sample_ploidy: A[iN, 1], sample_parents: A[iN, 2], sample_children: A[iN, 2], gamete_tau: A[iN, 2], gamete_lambda: A[f8, 2], gamete_error: A[f8, 2], sample_read_dists: A[f8, 4], sample_read_counts: A[i8, 2], haplotypes: A[i1, 2], log_frequencies: A[f8, 1], llk_cache: Opt[FDict2], step_type: int, dosage: A[iN, 1], dosage_p: A[iN, 1], dosage_q: A[iN, 1], gamete_p: A[iN, 1], gamete_q: A[iN, 1], constraint_p: A[iN, 1], constraint_q: A[iN, 1], dosage_log_frequencies: A[f8, 1]):
+    requires(len(sample_parents) == NS, sample_parents.shape[1] == 2, gamete_tau.shape == (NS, 2), gamete_lambda.shape == (NS, 2), gamete_error.shape == (NS, 2), PEDSTRUCT(sample_parents, gamete_lambda, gamete_error, NS))
+    requires(len(sample_children) == NS, forall(0, MC, lambda x: sample_children[target_index, x] < NS))
     requires(step_type == 0 or step_type == 1, NS >= 1, 0 <= target_index, target_index < NS, 0 <= allele_index, allele_index < sample_ploidy[target_index], 2 <= U, U <= 127)
     requires(sample_genotypes.shape[0] == NS, sample_genotypes.shape[1] <= 2 ** 20, sample_read_dists.shape[0] == NS, sample_read_counts.shape[0] == NS, sample_read_counts.shape[1] == NR, sample_read_dists.shape[2] == NN)
     requires(PEDOK(sample_genotypes, sample_ploidy, sample_read_dists, sample_read_counts, haplotypes, NS, sample_genotypes.shape[1], U, NN, sample_read_dists.shape[3], NR))
-    requires(PEDPOS(sample_ploidy, sample_parents, sample_children, gamete_tau, gamete_lambda, gamete_error, log_frequencies, sample_read_dists, sample_read_counts, haplotypes, NS, U, NN, NR))
+    requires(PEDPOS(sample_ploidy, sample_parents, sample_children, gamete_tau, gamete_lambda, gamete_error, log_frequencies, sample_read_dists, sample_read_counts, haplotypes, NS, U, NN, NR, MC))
     requires(implies(llk_cache is not None, DCOH3(llk_cache, sample_read_dists, sample_read_counts, haplotypes, sample_ploidy, NS, NN, NR, U)))
     modifies(sample_genotypes, llk_cache, dosage, dosage_p, dosage_q, gamete_p, gamete_q, constraint_p, constraint_q, dosage_log_frequencies)
     # only the chosen copy of the chosen individual changes, and it stays a valid allele
@@ -398,19 +586,22 @@ def allele_step(target_index: int, allele_index: int, sample_genotypes: A[iN, 2]
     ensures(implies(llk_cache is not None, DCOH3(llk_cache, sample_read_dists, sample_read_counts, haplotypes, sample_ploidy, NS, NN, NR, U)))
     with defs():
         NS = len(sample_ploidy)
+        MC = sample_children.shape[1]
         NR = sample_read_dists.shape[1]
         NN = haplotypes.shape[1]
         U = len(haplotypes)
     with entry():
-        instantiate(PEDPOS(sample_ploidy, sample_parents, sample_children, gamete_tau, gamete_lambda, gamete_error, log_frequencies, sample_read_dists, sample_read_counts, haplotypes, NS, U, NN, NR), sample_genotypes)
+        instantiate(PEDPOS(sample_ploidy, sample_parents, sample_children, gamete_tau, gamete_lambda, gamete_error, log_frequencies, sample_read_dists, sample_read_counts, haplotypes, NS, U, NN, NR, MC), sample_genotypes)
 
 
 @contract("mchap.pedigree.mcmc.sample_step", machine_ints=True, props=["C18", "C09"], variants=[{"llk_cache": "some"}])
 def sample_step(target_index: int, sample_genotypes: A[iN, 2], sample_ploidy: A[iN, 1], sample_parents: A[iN, 2], sample_children: A[iN, 2], gamete_tau: A[iN, 2], gamete_lambda: A[f8, 2], gamete_error: A[f8, 2], sample_read_dists: A[f8, 4], sample_read_counts: A[i8, 2], haplotypes: A[i1, 2], log_frequencies: A[f8, 1], llk_cache: Opt[FDict2], step_type: int, dosage: A[iN, 1], dosage_p: A[iN, 1], dosage_q: A[iN, 1], gamete_p: A[iN, 1], gamete_q: A[iN, 1], constraint_p: A[iN, 1], constraint_q: A[iN, 1], dosage_log_frequencies: A[f8, 1]):
+    requires(len(sample_parents) == NS, sample_parents.shape[1] == 2, gamete_tau.shape == (NS, 2), gamete_lambda.shape == (NS, 2), gamete_error.shape == (NS, 2), PEDSTRUCT(sample_parents, gamete_lambda, gamete_error, NS))
+    requires(len(sample_children) == NS, forall(0, MC, lambda x: sample_children[target_index, x] < NS))
     requires(step_type == 0 or step_type == 1, NS >= 1, 0 <= target_index, target_index < NS, 2 <= U, U <= 127)
     requires(sample_genotypes.shape[0] == NS, sample_genotypes.shape[1] <= 2 ** 20, sample_read_dists.shape[0] == NS, sample_read_counts.shape[0] == NS, sample_read_counts.shape[1] == NR, sample_read_dists.shape[2] == NN)
     requires(PEDOK(sample_genotypes, sample_ploidy, sample_read_dists, sample_read_counts, haplotypes, NS, sample_genotypes.shape[1], U, NN, sample_read_dists.shape[3], NR))
-    requires(PEDPOS(sample_ploidy, sample_parents, sample_children, gamete_tau, gamete_lambda, gamete_error, log_frequencies, sample_read_dists, sample_read_counts, haplotypes, NS, U, NN, NR))
+    requires(PEDPOS(sample_ploidy, sample_parents, sample_children, gamete_tau, gamete_lambda, gamete_error, log_frequencies, sample_read_dists, sample_read_counts, haplotypes, NS, U, NN, NR, MC))
     requires(implies(llk_cache is not None, DCOH3(llk_cache, sample_read_dists, sample_read_counts, haplotypes, sample_ploidy, NS, NN, NR, U)))
     modifies(sample_genotypes, llk_cache, dosage, dosage_p, dosage_q, gamete_p, gamete_q, constraint_p, constraint_q, dosage_log_frequencies)
     # only the genotype of the target individual changes; all genotypes stay valid; the cache stays owner-coherent
@@ -419,6 +610,7 @@ def sample_step(target_index: int, sample_genotypes: A[iN, 2], sample_ploidy: A[
     ensures(implies(llk_cache is not None, DCOH3(llk_cache, sample_read_dists, sample_read_counts, haplotypes, sample_ploidy, NS, NN, NR, U)))
     with defs():
         NS = len(sample_ploidy)
+        MC = sample_children.shape[1]
         NR = sample_read_dists.shape[1]
         NN = haplotypes.shape[1]
         U = len(haplotypes)
@@ -432,10 +624,12 @@ def sample_step(target_index: int, sample_genotypes: A[iN, 2], sample_ploidy: A[
 
 @contract("mchap.pedigree.mcmc.compound_step", machine_ints=True, props=["C18", "C09"], variants=[{"llk_cache": "some"}])
 def compound_step(sample_genotypes: A[iN, 2], sample_ploidy: A[iN, 1], sample_parents: A[iN, 2], sample_children: A[iN, 2], gamete_tau: A[iN, 2], gamete_lambda: A[f8, 2], gamete_error: A[f8, 2], sample_read_dists: A[f8, 4], sample_read_counts: A[i8, 2], haplotypes: A[i1, 2], log_frequencies: A[f8, 1], llk_cache: Opt[FDict2], step_type: int, dosage: A[iN, 1], dosage_p: A[iN, 1], dosage_q: A[iN, 1], gamete_p: A[iN, 1], gamete_q: A[iN, 1], constraint_p: A[iN, 1], constraint_q: A[iN, 1], dosage_log_frequencies: A[f8, 1]):
+    requires(len(sample_parents) == NS, sample_parents.shape[1] == 2, gamete_tau.shape == (NS, 2), gamete_lambda.shape == (NS, 2), gamete_error.shape == (NS, 2), PEDSTRUCT(sample_parents, gamete_lambda, gamete_error, NS))
+    requires(len(sample_children) == NS, forall(0, NS, lambda t: forall(0, MC, lambda x: sample_children[t, x] < NS)))
     requires(step_type == 0 or step_type == 1, NS >= 1, 2 <= U, U <= 127)
     requires(sample_genotypes.shape[0] == NS, sample_genotypes.shape[1] <= 2 ** 20, sample_read_dists.shape[0] == NS, sample_read_counts.shape[0] == NS, sample_read_counts.shape[1] == NR, sample_read_dists.shape[2] == NN)
     requires(PEDOK(sample_genotypes, sample_ploidy, sample_read_dists, sample_read_counts, haplotypes, NS, sample_genotypes.shape[1], U, NN, sample_read_dists.shape[3], NR))
-    requires(PEDPOS(sample_ploidy, sample_parents, sample_children, gamete_tau, gamete_lambda, gamete_error, log_frequencies, sample_read_dists, sample_read_counts, haplotypes, NS, U, NN, NR))
+    requires(PEDPOS(sample_ploidy, sample_parents, sample_children, gamete_tau, gamete_lambda, gamete_error, log_frequencies, sample_read_dists, sample_read_counts, haplotypes, NS, U, NN, NR, MC))
     requires(implies(llk_cache is not None, DCOH3(llk_cache, sample_read_dists, sample_read_counts, haplotypes, sample_ploidy, NS, NN, NR, U)))
     modifies(sample_genotypes, llk_cache, dosage, dosage_p, dosage_q, gamete_p, gamete_q, constraint_p, constraint_q, dosage_log_frequencies)
     # C09 (call-pedigree): after a full sweep over all individuals and allele copies every genotype is valid and every
@@ -444,6 +638,7 @@ def compound_step(sample_genotypes: A[iN, 2], sample_ploidy: A[iN, 1], sample_pa
     ensures(implies(llk_cache is not None, DCOH3(llk_cache, sample_read_dists, sample_read_counts, haplotypes, sample_ploidy, NS, NN, NR, U)))
     with defs():
         NS = len(sample_ploidy)
+        MC = sample_children.shape[1]
         NR = sample_read_dists.shape[1]
         NN = haplotypes.shape[1]
         U = len(haplotypes)
@@ -452,3 +647,94 @@ def compound_step(sample_genotypes: A[iN, 2], sample_ploidy: A[iN, 1], sample_pa
         invariant(forall(0, NS, lambda t: 0 <= target_indices[t] and target_indices[t] < NS))
         invariant(PEDOK(sample_genotypes, sample_ploidy, sample_read_dists, sample_read_counts, haplotypes, NS, sample_genotypes.shape[1], U, NN, sample_read_dists.shape[3], NR))
         invariant(implies(llk_cache is not None, DCOH3(llk_cache, sample_read_dists, sample_read_counts, haplotypes, sample_ploidy, NS, NN, NR, U)))
+
+
+# ---- the children matrix: which trios belong to the Markov blanket of an individual -------------------------------
+
+
+@spec_inline
+def ISCH(parents: A[int, 2], c: int, p: int) -> bool:
+    """individual p is a parent of individual c"""
+    return parents[c, 0] == p or parents[c, 1] == p
+
+
+@spec
+def CC(parents: A[int, 2], p: int, n: int) -> int:
+    """number of children of p among the first n individuals (selfed progeny count once)"""
+    decreases(n)
+    if n <= 0:
+        return 0
+    return CC(parents, p, n - 1) + ite(ISCH(parents, n - 1, p), 1, 0)
+
+
+@lemma(shared=True)
+def lemma_cc_mono(parents: A[int, 2], p: int, a: int, b: int):
+    requires(0 <= a, a <= b)
+    ensures(CC(parents, p, a) <= CC(parents, p, b), 0 <= CC(parents, p, a))
+    decreases(b)
+    if a < b:
+        lemma_cc_mono(parents, p, a, b - 1)
+        unfold(CC(parents, p, b))
+    else:
+        lemma_cc_nonneg(parents, p, a)
+
+
+@lemma(shared=True)
+def lemma_cc_nonneg(parents: A[int, 2], p: int, a: int):
+    ensures(0 <= CC(parents, p, a), implies(a >= 0, CC(parents, p, a) <= a))
+    decreases(a)
+    unfold(CC(parents, p, a))
+    if a > 0:
+        lemma_cc_nonneg(parents, p, a - 1)
+
+
+@contract("mchap.pedigree.mcmc.sample_children_matrix", machine_ints=True, props=["C18"])
+def sample_children_matrix(sample_parents: A[i8, 2]) -> A[i8, 2]:
+    requires(NS >= 1, sample_parents.shape[1] == 2)
+    requires(forall(0, NS, lambda x: -1 <= sample_parents[x, 0] and sample_parents[x, 0] < NS and -1 <= sample_parents[x, 1] and sample_parents[x, 1] < NS and sample_parents[x, 0] != x and sample_parents[x, 1] != x))
+    ensures(len(result) == NS)
+    # row p lists the children of p in increasing order -- child c sits at position "number of earlier children of p" -- and
+    # is padded with -1: every trio in which p is a parent, and no other, is visited by the Markov-blanket loops
+    ensures(forall(0, NS, lambda c: forall(0, NS, lambda p: implies(ISCH(sample_parents, c, p), CC(sample_parents, p, c) < result.shape[1] and result[p, CC(sample_parents, p, c)] == c))))
+    ensures(forall(0, NS, lambda p: forall(0, result.shape[1], lambda x: ite(x < CC(sample_parents, p, NS), 0 <= result[p, x] and result[p, x] < NS and ISCH(sample_parents, result[p, x], p), result[p, x] == -1))))
+    with defs():
+        NS = len(sample_parents)
+    with loop(0):
+        invariant(0 <= i, i <= NS, n_samples == NS, n_parents == 2, len(next_child_index) == NS)
+        invariant(forall(0, NS, lambda p: next_child_index[p] == CC(sample_parents, p, i)))
+        with tail():
+            with forall_intro(pp, 0, NS, next_child_index[pp] == CC(sample_parents, pp, i + 1)):
+                unfold(CC(sample_parents, pp, i + 1))
+    with loop(1):
+        invariant(0 <= j, j <= 2)
+        invariant(forall(0, NS, lambda p: next_child_index[p] == CC(sample_parents, p, i) + ite(j >= 1 and sample_parents[i, 0] == p, 1, 0) + ite(j >= 2 and sample_parents[i, 1] == p and sample_parents[i, 0] != p, 1, 0)))
+        with head():
+            with forall_intro(pp, 0, NS, 0 <= CC(sample_parents, pp, i) and CC(sample_parents, pp, i) <= i):
+                lemma_cc_nonneg(sample_parents, pp, i)
+    with after_stmt("next_child_index = np.zeros(n_samples, dtype=np.int64)"):
+        with forall_intro(pp, 0, NS, CC(sample_parents, pp, 0) == 0):
+            unfold(CC(sample_parents, pp, 0))
+    with before_stmt("max_children = next_child_index.max()"):
+        with forall_intro(pp, 0, NS, 0 <= CC(sample_parents, pp, NS)):
+            lemma_cc_nonneg(sample_parents, pp, NS)
+    with loop(2):
+        invariant(0 <= i, i <= NS, len(sample_children) == NS, sample_children.shape[1] == max_children, len(next_child_index) == NS)
+        invariant(forall(0, NS, lambda p: CC(sample_parents, p, NS) <= max_children))
+        invariant(forall(0, NS, lambda p: next_child_index[p] == CC(sample_parents, p, i)))
+        invariant(forall(0, i, lambda c: forall(0, NS, lambda p: implies(ISCH(sample_parents, c, p), CC(sample_parents, p, c) < max_children and sample_children[p, CC(sample_parents, p, c)] == c))))
+        invariant(forall(0, NS, lambda p: forall(0, max_children, lambda x: ite(x < CC(sample_parents, p, i), 0 <= sample_children[p, x] and sample_children[p, x] < i and ISCH(sample_parents, sample_children[p, x], p), sample_children[p, x] == -1))))
+        with head():
+            with forall_intro(pp, 0, NS, CC(sample_parents, pp, i) <= CC(sample_parents, pp, i + 1) and CC(sample_parents, pp, i + 1) <= CC(sample_parents, pp, NS) and 0 <= CC(sample_parents, pp, i)):
+                lemma_cc_mono(sample_parents, pp, i, i + 1)
+                lemma_cc_mono(sample_parents, pp, i + 1, NS)
+        with tail():
+            with forall_intro(pp, 0, NS, next_child_index[pp] == CC(sample_parents, pp, i + 1)):
+                unfold(CC(sample_parents, pp, i + 1))
+    with loop(3):
+        invariant(0 <= j, j <= 2)
+        invariant(forall(0, NS, lambda p: next_child_index[p] == CC(sample_parents, p, i) + ite(j >= 1 and sample_parents[i, 0] == p, 1, 0) + ite(j >= 2 and sample_parents[i, 1] == p and sample_parents[i, 0] != p, 1, 0)))
+        invariant(forall(0, i, lambda c: forall(0, NS, lambda p: implies(ISCH(sample_parents, c, p), CC(sample_parents, p, c) < max_children and sample_children[p, CC(sample_parents, p, c)] == c))))
+        invariant(forall(0, NS, lambda p: implies((j >= 1 and sample_parents[i, 0] == p) or (j >= 2 and sample_parents[i, 1] == p), sample_children[p, CC(sample_parents, p, i)] == i)))
+        invariant(forall(0, NS, lambda p: forall(0, max_children, lambda x: ite(x < next_child_index[p], 0 <= sample_children[p, x] and sample_children[p, x] <= i and ISCH(sample_parents, sample_children[p, x], p), sample_children[p, x] == -1))))
+        with head():
+            unfold(CC(sample_parents, sample_parents[i, j], i + 1))
